@@ -166,3 +166,125 @@ Theorem getitem_array_alone : forall ix c vs,
   obs (getitem_model [IArray ix] c) = getitem_spec [IArray ix] (type_of c) vs.
 Proof. exact Proofs_Getitem9.getitem_array_alone. Qed.
 Print Assumptions getitem_array_alone.
+From AwkV Require Import Ops_GetitemAdv Proofs_GetitemAdv.
+(* ------------------------------------------------------------------------------------------------
+   Array-like slice items (Ops_GetitemAdv.v; value-level specification [getitem_adv_spec], proofs in
+   Proofs_GetitemAdv.v, Examples on the documented arrays of ak.Array.__getitem__ there: ex_missing_index,
+   ex_missing_mask, ex_jagged, ex_jagged_mask, ex_jagged_none, ex_jagged_none_above, ex_jagged_out_of_range,
+   ex_jagged_wrong_length, ex_nd_array, ex_nd_array_below_range, ex_nd_array_rank3_then_range, ex_boolean_array,
+   ex_jagged_below_range_then_field).
+   ------------------------------------------------------------------------------------------------ *)
+(* an index array with missing values, alone: the result has the length of the index, None exactly at the None positions,
+   elsewhere the element the integer selects (negative = from the end) *)
+Theorem missing_index_none_exactly : forall topopt ix t vs r,
+  getitem_adv_spec [] (AIdx 1 topopt (JInts ix)) [] t vs = Ok r ->
+  exists l, r = VList l /\ zlen l = zlen ix /\
+  forall k o, get ix k = Ok o ->
+    match o with
+    | None => get l k = Ok VNone
+    | Some i => exists p, wrap_at (zlen vs) i = Ok p /\ get l k = get vs p /\ exists e, get vs p = Ok e
+    end.
+Proof. exact Proofs_GetitemAdv.missing_index_none_exactly_. Qed.
+Print Assumptions missing_index_none_exactly.
+(* ... and the non-missing part is the selection by the plain integer array of the EXISTING specification *)
+Theorem missing_index_is_integer_selection : forall topopt ix t vs r,
+  getitem_adv_spec [] (AIdx 1 topopt (JInts ix)) [] t vs = Ok r ->
+  exists l, r = VList l /\ getitem_spec [IArray (somes ix)] t vs = Ok [VList (at_somes ix l)].
+Proof. exact Proofs_GetitemAdv.missing_index_is_integer_selection_. Qed.
+Print Assumptions missing_index_is_integer_selection.
+(* an out-of-range position anywhere in the index: an error, never data *)
+Theorem missing_index_out_of_range_errors : forall topopt ix t vs i,
+  In (Some i) ix -> ~ (- zlen vs <= i < zlen vs) ->
+  forall r, getitem_adv_spec [] (AIdx 1 topopt (JInts ix)) [] t vs <> Ok r.
+Proof. exact Proofs_GetitemAdv.missing_index_out_of_range_errors_. Qed.
+Print Assumptions missing_index_out_of_range_errors.
+(* a jagged index, alone: one entry per list of the array (else no result); entry i of the result depends on entry i of the index
+   and on list i of the array only: None for a None entry or a missing list, otherwise the same selection one level down *)
+Theorem jagged_level_by_level : forall depth topopt subs t vs r,
+  getitem_adv_spec [] (AIdx depth topopt (JLists subs)) [] t vs = Ok r ->
+  exists l, r = VList l /\ zlen l = zlen subs /\ zlen subs = zlen vs /\
+  forall i oj e, get subs i = Ok oj -> get vs i = Ok e ->
+    match oj with
+    | None => get l i = Ok VNone
+    | Some j' =>
+        match e with
+        | VList l1 => exists r1, jag_apply Ok j' l1 = Ok r1 /\ get l i = Ok (VList r1)
+        | VNone => get l i = Ok VNone
+        | _ => False
+        end
+    end.
+Proof. exact Proofs_GetitemAdv.jagged_level_by_level_. Qed.
+Print Assumptions jagged_level_by_level.
+(* len(result[i]) = len(index[i]) *)
+Theorem jagged_lengths : forall depth topopt subs t vs r i ix l1,
+  getitem_adv_spec [] (AIdx depth topopt (JLists subs)) [] t vs = Ok r ->
+  get subs i = Ok (Some (JInts ix)) -> get vs i = Ok (VList l1) ->
+  exists l r1, r = VList l /\ zlen l = zlen vs /\ get l i = Ok (VList r1) /\ zlen r1 = zlen ix.
+Proof. exact Proofs_GetitemAdv.jagged_lengths_. Qed.
+Print Assumptions jagged_lengths.
+(* every element of result[i] is None or an element of the SAME list x[i] *)
+Theorem jagged_members : forall depth topopt subs t vs r i ix l1,
+  getitem_adv_spec [] (AIdx depth topopt (JLists subs)) [] t vs = Ok r ->
+  get subs i = Ok (Some (JInts ix)) -> get vs i = Ok (VList l1) ->
+  exists l r1, r = VList l /\ get l i = Ok (VList r1) /\ forall v, In v r1 -> v = VNone \/ In v l1.
+Proof. exact Proofs_GetitemAdv.jagged_members_. Qed.
+Print Assumptions jagged_members.
+(* an index out of range for the list it addresses: an error, never data *)
+Theorem jagged_out_of_range_errors : forall depth topopt subs t vs i ix l1 p,
+  get subs i = Ok (Some (JInts ix)) -> get vs i = Ok (VList l1) ->
+  In (Some p) ix -> ~ (- zlen l1 <= p < zlen l1) ->
+  forall r, getitem_adv_spec [] (AIdx depth topopt (JLists subs)) [] t vs <> Ok r.
+Proof. exact Proofs_GetitemAdv.jagged_out_of_range_errors_. Qed.
+Print Assumptions jagged_out_of_range_errors.
+(* an index with another number of lists than the array: an error, never data *)
+Theorem jagged_length_mismatch_errors : forall depth topopt subs t vs,
+  zlen subs <> zlen vs ->
+  forall r, getitem_adv_spec [] (AIdx depth topopt (JLists subs)) [] t vs <> Ok r.
+Proof. exact Proofs_GetitemAdv.jagged_length_mismatch_errors_. Qed.
+Print Assumptions jagged_length_mismatch_errors.
+(* an n-d integer array (below leading ranges, followed by further items) = the EXISTING specification applied to the raveled
+   1-d array, the dimension of that array regrouped by the shape *)
+Theorem nd_array_is_flat_then_reshape : forall pre shape data post t vs,
+  forallb is_range pre = true -> existsb is_array post = false -> at_after_basic false post = false ->
+  shape_ok shape (zlen data) = true ->
+  getitem_adv_spec pre (ANd shape data) post t vs =
+  do r <- getitem_spec (pre ++ IArray data :: post) t vs;
+  match r with [v] => reshape_at (length pre) shape v | _ => Err EOob end.
+Proof. exact Proofs_GetitemAdv.nd_array_is_flat_then_reshape_. Qed.
+Print Assumptions nd_array_is_flat_then_reshape.
+(* alone: gather, then nest by the shape *)
+Theorem nd_array_alone : forall shape data t vs,
+  shape_ok shape (zlen data) = true ->
+  getitem_adv_spec [] (ANd shape data) [] t vs =
+  do xs <- mapM (fun i => at_spec i vs) data; Ok (shape_nest shape xs).
+Proof. exact Proofs_GetitemAdv.nd_array_alone_. Qed.
+Print Assumptions nd_array_alone.
+(* the result has the shape of the index (then whatever the elements are), and read back in row-major order it is the
+   selection by the raveled 1-d array as the existing specification defines it *)
+Theorem nd_array_shape : forall shape data t vs r,
+  getitem_adv_spec [] (ANd shape data) [] t vs = Ok r ->
+  has_shape shape r /\
+  exists xs, mapM (fun i => at_spec i vs) data = Ok xs /\ ravel_value (length shape) r = xs /\
+             getitem_spec [IArray data] t vs = Ok [VList xs].
+Proof. exact Proofs_GetitemAdv.nd_array_shape_. Qed.
+Print Assumptions nd_array_shape.
+(* an out-of-range entry: an error, never data *)
+Theorem nd_array_out_of_range_errors : forall shape data t vs i,
+  In i data -> ~ (- zlen vs <= i < zlen vs) ->
+  forall r, getitem_adv_spec [] (ANd shape data) [] t vs <> Ok r.
+Proof. exact Proofs_GetitemAdv.nd_array_out_of_range_errors_. Qed.
+Print Assumptions nd_array_out_of_range_errors.
+(* a 1-d boolean array of the length of the array = the integer array of its true positions (existing specification) *)
+Theorem boolean_array_is_nonzero : forall bits t vs,
+  zlen bits = zlen vs ->
+  getitem_adv_spec [] (ABool [zlen vs] bits) [] t vs =
+  do r <- getitem_spec [IArray (true_positions bits)] t vs; match r with [v] => Ok v | _ => Err EOob end.
+Proof. exact Proofs_GetitemAdv.boolean_array_is_nonzero_. Qed.
+Print Assumptions boolean_array_is_nonzero.
+(* a mask (deepest level of a jagged boolean index) without missing values, of the length of the list it filters:
+   the elements at the true positions, in order *)
+Theorem mask_is_true_positions : forall bits l,
+  zlen bits = zlen l ->
+  jag_apply Ok (JBools (map Some bits)) l = mapM (get l) (true_positions bits).
+Proof. exact Proofs_GetitemAdv.mask_is_true_positions_. Qed.
+Print Assumptions mask_is_true_positions.
